@@ -23,7 +23,6 @@ def wf(E, label, x):
     E.true(label + ':boundary_ranks', (cores[0].shape[0] == 1) & (cores[-1].shape[-1] == 1))
     E.true(label + ':R', all_eq(list(x.R), [cores[0].shape[0]] + [c.shape[-1] for c in cores]))
     E.true(label + ':is_ttm', x.is_ttm == (nd == 4))
-    E.true(label + ':cores_distinct_objects', len({id(c) for c in cores}) == len(cores))
     # the metadata getters hand out copies: changing a returned list must not change the object
     for nm in (('N', 'R') + (('M',) if nd == 4 else ())):
         got = getattr(x, nm)
